@@ -14,6 +14,37 @@
 
 static u64 n_calls, n_files, n_reads, n_short;
 
+/* one reading session on a file holding `fbytes`, recorded whole (op 14) for the Lean model of LZ4F_readOpen / LZ4F_read (Model/FileR.lean):
+ * result of readOpen, then for every LZ4F_read the size asked and the value returned, and all bytes returned */
+static u64 n_sessions, n_session_reads, n_session_errors;
+static void read_session(const u8* fbytes, size_t fsz, int style, size_t hintN)
+{
+    FILE* fp = tmpfile(); LZ4_readFile_t* rd = NULL; rec_t t; size_t res; static u8 log[16 * 4096]; size_t nlog = 0; u8* all = xalloc(hintN + 70000 + 64); size_t got = 0; int i;
+    if (!fp) { perror("tmpfile"); exit(3); }
+    if (fsz && fwrite(fbytes, 1, fsz, fp) != fsz) { perror("fwrite"); exit(3); }
+    rewind(fp);
+    res = LZ4F_readOpen(&rd, fp); n_calls++;
+    rec_begin(&t, 14); rec_bytes(&t, fbytes, fsz); rec_int(&t, LZ4F_isError(res) ? (long long)LZ4F_getErrorCode(res) : 0);
+    if (!LZ4F_isError(res)) {
+        for (i = 0; i < 4000; i++) {
+            size_t want, k; u8* tmp; u64 w64, k64;
+            switch (style == 0 ? 9 : rndn(6)) { case 0: want = 1; break; case 1: want = 1 + rndn(10); break; case 2: want = 65536; break; case 3: want = 0; break; case 9: want = hintN + 64; break; default: want = 1 + rndn(3000); }
+            if (got + want > hintN + 70000) want = hintN + 70000 - got;
+            tmp = xalloc(want);
+            k = LZ4F_read(rd, tmp, want); n_calls++; n_session_reads++;
+            w64 = want; k64 = LZ4F_isError(k) ? (0x8000000000000000ULL | (u64)LZ4F_getErrorCode(k)) : (u64)k;
+            memcpy(log + nlog, &w64, 8); memcpy(log + nlog + 8, &k64, 8); nlog += 16;
+            if (LZ4F_isError(k)) { n_session_errors++; free(tmp); break; }
+            if (k <= want) { memcpy(all + got, tmp, k); got += k; }
+            free(tmp);
+            if ((k == 0 && want > 0) || got >= hintN + 70000) break;
+        }
+        LZ4F_readClose(rd);
+    } else n_session_errors++;
+    rec_bytes(&t, log, nlog); rec_bytes(&t, all, got); rec_write(&t); n_sessions++;
+    free(all); fclose(fp);
+}
+
 static void one_case(const u8* content, size_t n, int thorough)
 {
     u8* ops = xalloc(5 * (n + 2)); size_t nops = 0; LZ4F_preferences_t prefs; LZ4_writeFile_t* w = NULL; LZ4_readFile_t* rd = NULL; FILE* fp = tmpfile(); rec_t r; size_t pos = 0; size_t res; u8* filebytes; long fsz; int useNull = rndp(10);
@@ -69,7 +100,13 @@ static void one_case(const u8* content, size_t n, int thorough)
             LZ4F_readClose(rd); free(out);
         }
     }
-    cur_clear(); rec_write(&r); free(filebytes); free(ops); fclose(fp);
+    cur_clear(); rec_write(&r);
+    if ((size_t)fsz <= 300000) {   /* sessions replayed by the Lean model of the read side: the file itself, a truncated copy, a corrupted copy */
+        read_session(filebytes, (size_t)fsz, 0, n); read_session(filebytes, (size_t)fsz, 1, n);
+        if (fsz > 0) { size_t cut = rndn((u32)fsz); read_session(filebytes, cut, 1, n); }
+        if (fsz > 0) { u8* m = xalloc((size_t)fsz); memcpy(m, filebytes, (size_t)fsz); m[rndn((u32)fsz)] ^= (u8)(1u << rndn(8)); read_session(m, (size_t)fsz, (int)rndn(2), n); free(m); }
+    }
+    free(filebytes); free(ops); fclose(fp);
 }
 
 int main(int argc, char** argv)
@@ -84,7 +121,7 @@ int main(int argc, char** argv)
         for (i = 0; i < 8; i++) { gen_data(data, around[i], (int)rndn(D_KINDS)); one_case(data, around[i], thorough); } }
     for (i = 0; i < (thorough ? 1500 : 60); i++) { n = rndp(50) ? rndn(3000) : rndn((u32)maxn); gen_data(data, n, (int)rndn(D_KINDS)); one_case(data, n, thorough); }
     harness_done();
-    stat_u("calls", n_calls); stat_u("files", n_files); stat_u("reads", n_reads); stat_u("files_shorter_than_max_header", n_short); stat_u("records", g_nrecords); stat_u("cfails", (u64)g_cfails);
+    stat_u("calls", n_calls); stat_u("files", n_files); stat_u("reads", n_reads); stat_u("files_shorter_than_max_header", n_short); stat_u("read_sessions_for_the_model", n_sessions); stat_u("read_session_calls", n_session_reads); stat_u("read_sessions_ending_in_error", n_session_errors); stat_u("records", g_nrecords); stat_u("cfails", (u64)g_cfails);
     free(data);
     return g_cfails ? 1 : 0;
 }
